@@ -58,7 +58,7 @@ theorem removeNamed_sublist (n : String) (ms : List Macro) : (removeNamed n ms).
     simp only [removeNamed]
     split
     · exact List.Sublist.cons _ ih
-    · exact List.Sublist.cons₂ _ ih
+    · exact List.Sublist.cons_cons _ ih
 
 theorem names_removeNamed_nodup {ms : List Macro} (h : (names ms).Nodup) (n : String) :
     (names (removeNamed n ms)).Nodup := by
